@@ -69,6 +69,7 @@ Procs == 1..NP
 DisplayShapes == {"none", "name", "description", "icon", "all"}
 NoStep == "nostep"
 SigId == "sig"
+OwnSigId == "sigown"      \* the signal's own ID where it differs from its registration key: unknown to callers
 NoSig == "nosig"
 ValidInputs == {"va", "vb", "vd", "vl", "vs"}
 AllInputs == ValidInputs \cup {"inv"}
@@ -90,6 +91,11 @@ ASSUME /\ {<<t[2], t[3]>> : t \in BehTab} = OutIdClasses \X OutDataClasses
 
 VARIABLES call,       \* proc -> call record (fixed by Init)
           display,    \* step -> display shape of the step and of its signal (fixed by Init; documentation only)
+          layout,     \* how the schema is put together (fixed by Init): [reg |-> the steps registered in the schema
+                      \* (a call on any other ID - a step of another schema, "", another letter case - is an unknown
+                      \* step, also when exactly one step is registered), sigreg |-> step -> "same" | "differ": the
+                      \* signal handler is registered under the key SigId and its signal's own ID is SigId too /
+                      \* is OwnSigId; calls address handlers by the registration KEY]
           pc,         \* proc -> control point
           arg,        \* proc -> unserialized input ("none" before)
           mutex,      \* step -> proc holding initializerMutex, 0 = free
@@ -99,7 +105,7 @@ VARIABLES call,       \* proc -> call record (fixed by Init)
           ledger,     \* sequence of handler invocations
           res         \* proc -> outcome record
 
-vars == <<call, display, pc, arg, mutex, created, stepData, initCount, ledger, res>>
+vars == <<call, display, layout, pc, arg, mutex, created, stepData, initCount, ledger, res>>
 
 ---------------------------------------------------------------------------
 (* The contract as operators *)
@@ -115,7 +121,7 @@ Unser(in) == IF in \in ValidInputs THEN [ok |-> TRUE, v |-> Native(in)]
 
 IsStep(c) == c.kind = "step"
 IsSignal(c) == c.kind = "signal"
-StepKnown(c) == c.step \in StepIds
+StepKnown(c) == c.step \in layout.reg
 SigKnown(c) == IsSignal(c) => c.sig = SigId
 
 \* the handler (step handler or signal handler) must run for exactly these calls
@@ -140,9 +146,10 @@ Expected(c) ==
 ---------------------------------------------------------------------------
 (* Initial state for a given call vector *)
 
-InitWith(cv, d) ==
+InitWith(cv, d, l) ==
     /\ call = cv
     /\ display = d
+    /\ layout = l
     /\ pc = [p \in Procs |-> "idle"]
     /\ arg = [p \in Procs |-> "none"]
     /\ mutex = [s \in StepIds |-> 0]
@@ -166,7 +173,7 @@ Fail(p, cl) == /\ Goto(p, "ret")
 Begin(p) ==
     /\ pc[p] = "idle"
     /\ Goto(p, "lookup")
-    /\ UNCHANGED <<call, display, arg, mutex, created, stepData, initCount, ledger, res>>
+    /\ UNCHANGED <<call, display, layout, arg, mutex, created, stepData, initCount, ledger, res>>
 
 \* s.StepsValue[stepID]; for signals additionally SignalHandlers()[signalID]
 Lookup(p) ==
@@ -174,7 +181,7 @@ Lookup(p) ==
     /\ IF ~StepKnown(call[p]) THEN Fail(p, "badarg")
        ELSE IF ~SigKnown(call[p]) THEN Fail(p, "error")      \* an error, never a panic
        ELSE Goto(p, "unser") /\ UNCHANGED res
-    /\ UNCHANGED <<call, display, arg, mutex, created, stepData, initCount, ledger>>
+    /\ UNCHANGED <<call, display, layout, arg, mutex, created, stepData, initCount, ledger>>
 
 \* step.Input().Unserialize / signal.DataSchema().Unserialize
 UnserializeInput(p) ==
@@ -185,7 +192,7 @@ UnserializeInput(p) ==
                     /\ UNCHANGED res
        ELSE /\ Fail(p, "invalidinput")                        \* handler NOT invoked
             /\ UNCHANGED arg
-    /\ UNCHANGED <<call, display, mutex, created, stepData, initCount, ledger>>
+    /\ UNCHANGED <<call, display, layout, mutex, created, stepData, initCount, ledger>>
 
 \* setupStepData, data already there: lock, look up, unlock
 SetupHit(p) ==
@@ -193,7 +200,7 @@ SetupHit(p) ==
     /\ mutex[S(p)] = 0
     /\ created[S(p)][R(p)]
     /\ Goto(p, "invoke")
-    /\ UNCHANGED <<call, display, arg, mutex, created, stepData, initCount, ledger, res>>
+    /\ UNCHANGED <<call, display, layout, arg, mutex, created, stepData, initCount, ledger, res>>
 
 \* setupStepData, first arrival for this run: lock, miss, the initializer starts (mutex held)
 InitBegin(p) ==
@@ -204,7 +211,7 @@ InitBegin(p) ==
     /\ mutex' = [mutex EXCEPT ![S(p)] = p]
     /\ initCount' = [initCount EXCEPT ![S(p)][R(p)] = @ + 1]
     /\ Goto(p, "ininit")
-    /\ UNCHANGED <<call, display, arg, created, stepData, ledger, res>>
+    /\ UNCHANGED <<call, display, layout, arg, created, stepData, ledger, res>>
 
 \* the initializer returns: store, unlock
 InitEnd(p) ==
@@ -213,7 +220,7 @@ InitEnd(p) ==
     /\ created' = [created EXCEPT ![S(p)][R(p)] = TRUE]
     /\ mutex' = [mutex EXCEPT ![S(p)] = 0]
     /\ Goto(p, "invoke")
-    /\ UNCHANGED <<call, display, arg, initCount, ledger, res>>
+    /\ UNCHANGED <<call, display, layout, arg, initCount, ledger, res>>
 
 \* setupStepData of a step without initializer, first arrival: lock, miss, store the zero value, unlock
 SetupCreate(p) ==
@@ -223,7 +230,7 @@ SetupCreate(p) ==
     /\ S(p) \in NoInitSteps
     /\ created' = [created EXCEPT ![S(p)][R(p)] = TRUE]
     /\ Goto(p, "invoke")
-    /\ UNCHANGED <<call, display, arg, mutex, stepData, initCount, ledger, res>>
+    /\ UNCHANGED <<call, display, layout, arg, mutex, stepData, initCount, ledger, res>>
 
 Setup(p) == SetupHit(p) \/ SetupCreate(p) \/ InitBegin(p) \/ InitEnd(p)
 
@@ -233,7 +240,7 @@ InvokeHandler(p) ==
     /\ ledger' = Append(ledger, [p |-> p, kind |-> call[p].kind, step |-> S(p), run |-> R(p),
                                  arg |-> arg[p], data |-> stepData[S(p)][R(p)]])
     /\ Goto(p, "inhandler")
-    /\ UNCHANGED <<call, display, arg, mutex, created, stepData, initCount, res>>
+    /\ UNCHANGED <<call, display, layout, arg, mutex, created, stepData, initCount, res>>
 
 \* the handler returns (a signal handler returns nothing: the call succeeds)
 HandlerReturn(p) ==
@@ -241,7 +248,7 @@ HandlerReturn(p) ==
     /\ IF IsStep(call[p]) THEN Goto(p, "check") /\ UNCHANGED res
        ELSE /\ Goto(p, "ret")
             /\ res' = [res EXCEPT ![p] = [class |-> "ok", out |-> "", ser |-> "none"]]
-    /\ UNCHANGED <<call, display, arg, mutex, created, stepData, initCount, ledger>>
+    /\ UNCHANGED <<call, display, layout, arg, mutex, created, stepData, initCount, ledger>>
 
 \* output ID lookup, output Validate, output Serialize
 CheckOutput(p) ==
@@ -251,12 +258,12 @@ CheckOutput(p) ==
        ELSE IF ~Conforms(b) THEN Fail(p, "error")             \* then the declared output's Validate
        ELSE /\ Goto(p, "ret")
             /\ res' = [res EXCEPT ![p] = [class |-> "ok", out |-> OutId(b), ser |-> arg[p]]]
-    /\ UNCHANGED <<call, display, arg, mutex, created, stepData, initCount, ledger>>
+    /\ UNCHANGED <<call, display, layout, arg, mutex, created, stepData, initCount, ledger>>
 
 Return(p) ==
     /\ pc[p] = "ret"
     /\ Goto(p, "done")
-    /\ UNCHANGED <<call, display, arg, mutex, created, stepData, initCount, ledger, res>>
+    /\ UNCHANGED <<call, display, layout, arg, mutex, created, stepData, initCount, ledger, res>>
 
 \* the same stages under the names of the two entry points
 CallStepBegin(p)            == IsStep(call[p]) /\ Begin(p)
@@ -315,6 +322,7 @@ ErrorClass ==
 \* declarative one, which is a function of the call alone; and no error is a panic
 DisplayBlind ==
     /\ display \in [StepIds -> DisplayShapes]
+    /\ layout.reg \subseteq StepIds /\ layout.sigreg \in [StepIds -> {"same", "differ"}]
     /\ \A p \in Procs : pc[p] \in {"ret", "done"} => res[p] = Expected(call[p]) /\ res[p].class # "panic"
 
 \* the step data of a run is created at most once, whichever call arrives first, and it is
